@@ -152,14 +152,20 @@ Section SolveTerminates.
 
   Definition ehlen (s : sys) (c : C) : nat := length (energy_history N C I A s c).
 
-  (* every executed _Step makes the energy history at least one entry longer (true of both DE solvers: one record per generation) *)
-  Hypothesis Hprogress : forall s c i,
+  (* G: an invariant of the algorithm state (e.g. "the simplex is not empty"); V: well-formed oracle inputs *)
+  Variable G : C -> Prop.
+  Variable V : I -> Prop.
+  (* every executed _Step makes the energy history at least one entry longer (true of both DE solvers: one record per generation)
+     and keeps the invariant *)
+  Hypothesis Hprogress : forall s c i, G c -> V i ->
     let r := run_prog inf (a_nested N C I A) s (a_step N C I A s c i) in
-    (S (ehlen s c) <= ehlen (set_stepmon N (fst r) (stepmon N (fst r) ++ snd (snd r))) (fst (snd r)))%nat.
+    (S (ehlen s c) <= ehlen (set_stepmon N (fst r) (stepmon N (fst r) ++ snd (snd r))) (fst (snd r)))%nat /\ G (fst (snd r)).
   (* Finalize never shortens it, (re)decoration does not touch it *)
   Hypothesis Hfinal : forall s c,
     (ehlen s c <= ehlen (set_stepmon N s (stepmon N s ++ snd (a_finalize N C I A s c))) (fst (a_finalize N C I A s c)))%nat.
   Hypothesis Hdeco : forall s c i, a_ehist_extra N C I A (a_decorate N C I A s c i) = a_ehist_extra N C I A c.
+  Hypothesis HdecoG : forall s c i, G c -> V i -> G (a_decorate N C I A s c i).
+  Hypothesis HfinalG : forall s c, G c -> G (fst (a_finalize N C I A s c)).
 
   Lemma ehlen_frame s s' c : stepmon N s' = stepmon N s -> ehlen s' c = ehlen s c.
   Proof. unfold ehlen, energy_history. now intros ->. Qed.
@@ -215,11 +221,12 @@ Section SolveTerminates.
   Qed.
 
   (* a Step that reports no stop has made the energy history strictly longer (when it was non-empty before) or non-empty *)
-  Lemma step_progress s c i :
+  Lemma step_progress s c i : G c -> V i ->
     snd (step N inf C I A s c i) = MNone ->
-    (S (ehlen s c) <= ehlen (fst (fst (step N inf C I A s c i))) (snd (fst (step N inf C I A s c i))))%nat.
+    (S (ehlen s c) <= ehlen (fst (fst (step N inf C I A s c i))) (snd (fst (step N inf C I A s c i))))%nat /\
+    G (snd (fst (step N inf C I A s c i))).
   Proof.
-    unfold step. cbv zeta.
+    intros HG HV. unfold step. cbv zeta.
     set (sc := bootstrap N C I A s c i).
     set (pre := match stepmon N (fst sc) with [] => (fst sc, MNone) | _ => terminated N C I A (fst sc) (snd sc) end).
     destruct (snd pre) eqn:Hm; [|intros H; discriminate H..].
@@ -229,13 +236,15 @@ Section SolveTerminates.
     set (s4 := if has_cb N s3 then set_cblog N s3 (cblog N s3 ++ [fst (a_best N C I A (fst (snd r)))]) else s3).
     set (t1 := terminated N C I A s4 (fst (snd r))).
     set (fc := match snd t1 with MNone => (fst t1, fst (snd r)) | _ => finalize N C I A (fst t1) (fst (snd r)) end).
-    intros _. cbn [fst snd].
+    intros Hfc. cbn [fst snd].
     assert (E1 : ehlen (fst sc) (snd sc) = ehlen s c).
     { subst sc. unfold bootstrap. destruct (live N s); [reflexivity|]. cbn [fst snd].
       destruct (box N s); [|reflexivity]. unfold ehlen, energy_history. cbn [stepmon set_live]. now rewrite Hdeco. }
+    assert (G1 : G (snd sc)).
+    { subst sc. unfold bootstrap. destruct (live N s); [exact HG|]. cbn [snd]. destruct (box N s); [apply HdecoG; assumption|exact HG]. }
     assert (E2 : ehlen (fst pre) (snd sc) = ehlen s c).
     { subst pre. destruct (stepmon N (fst sc)); [exact E1|]. rewrite <- E1. apply ehlen_frame. reflexivity. }
-    pose proof (Hprogress (fst pre) (snd sc) i) as P. cbv zeta in P. fold r in P. rewrite E2 in P.
+    destruct (Hprogress (fst pre) (snd sc) i G1 HV) as [P PG]. cbv zeta in P, PG. fold r in P, PG. rewrite E2 in P.
     assert (P3 : (S (ehlen s c) <= ehlen s3 (fst (snd r)))%nat).
     { replace (ehlen s3 (fst (snd r))) with (ehlen (set_stepmon N (fst r) (stepmon N (fst r) ++ snd (snd r))) (fst (snd r))); [exact P|].
       apply ehlen_frame. reflexivity. }
@@ -248,8 +257,10 @@ Section SolveTerminates.
     assert (P6 : (S (ehlen s c) <= ehlen (fst fc) (snd fc))%nat).
     { subst fc. destruct (snd t1); try exact P5;
         (eapply Nat.le_trans; [exact P5|apply ehlen_finalize]). }
-    replace (ehlen (fst (terminated N C I A (fst fc) (snd fc))) (snd fc)) with (ehlen (fst fc) (snd fc)); [exact P6|].
-    symmetry. apply ehlen_frame. reflexivity.
+    split.
+    - replace (ehlen (fst (terminated N C I A (fst fc) (snd fc))) (snd fc)) with (ehlen (fst fc) (snd fc)); [exact P6|].
+      symmetry. apply ehlen_frame. reflexivity.
+    - subst fc. destruct (snd t1); try exact PG; unfold finalize; cbn [fst snd]; apply HfinalG; exact PG.
   Qed.
 
   (* Terminated reports a stop as soon as the generation limit is reached *)
@@ -289,11 +300,12 @@ Section SolveTerminates.
   (* Solve always returns: with absolute limits (they are absolute after the first Terminated) a fuel of
      (generation limit + 3 - length of the energy history) Steps is enough for the loop to stop by itself *)
   Theorem solve_terminates : forall f s c is dflt mi mf,
+    G c -> Forall V is -> V dflt ->
     abs_limits mi mf s -> (0 <= mi)%Z ->
     (Z.to_nat (mi + 3) <= S f + ehlen s c)%nat ->
     snd (solve N inf C I A (S f) s c is dflt) = true.
   Proof.
-    induction f as [|f IH]; intros s c is dflt mi mf Hl Hmi Hfuel.
+    induction f as [|f IH]; intros s c is dflt mi mf HG His Hd Hl Hmi Hfuel.
     - cbn [solve]. destruct (snd (step N inf C I A s c (hd dflt is))) eqn:Hm; cbn [snd]; try reflexivity.
       exfalso.
       assert (Hlen : (mi < Z.of_nat (ehlen s c))%Z).
@@ -316,10 +328,15 @@ Section SolveTerminates.
          end).
       cbv zeta.
       destruct (snd (step N inf C I A s c (hd dflt is))) eqn:Hm; cbn [snd]; try reflexivity.
+      assert (Hi : V (hd dflt is)) by (destruct is; simpl; auto; inversion His; auto).
+      destruct (step_progress s c (hd dflt is) HG Hi Hm) as [Hp HG'].
       apply (IH _ _ _ _ mi mf).
+      + exact HG'.
+      + destruct is; simpl; auto. inversion His; auto.
+      + exact Hd.
       + apply step_keeps_abs_limits. exact Hl.
       + exact Hmi.
-      + pose proof (step_progress s c (hd dflt is) Hm) as Hp.
+      +
         set (n' := ehlen (fst (fst (step N inf C I A s c (hd dflt is)))) (snd (fst (step N inf C I A s c (hd dflt is))))) in *.
         set (n0 := ehlen s c) in *. set (n := Z.to_nat (mi + 3)) in *.
         clearbody n' n0 n. clear -Hp Hfuel. lia.
